@@ -131,11 +131,19 @@ func (f *flush) addTimerMetric(n *Client, metricType string, timer gostatsd.Time
 	}
 }
 
+// maxPreallocatedBatch bounds the memory reserved for a batch up front: metrics-per-batch is a limit on
+// the batch size, a very large value must not be allocated before there are that many metrics.
+const maxPreallocatedBatch = 10000
+
+func batchCapacity(metricsPerBatch uint) uint {
+	return min(metricsPerBatch, maxPreallocatedBatch)
+}
+
 func (f *flush) maybeFlush() {
 	if uint(len(f.ts.Metrics))+20 >= f.metricsPerBatch { // flush before it reaches max size and grows the slice
 		f.cb(f.ts)
 		f.ts = &timeSeries{
-			Metrics: make([]interface{}, 0, f.metricsPerBatch),
+			Metrics: make([]interface{}, 0, batchCapacity(f.metricsPerBatch)),
 		}
 	}
 }
